@@ -8,10 +8,12 @@
                the full heap after every op since both start from the empty tree)
   tie 2      : translator tools/c2avl.py (wired by tools/vavl.py): the rebalancing primitives of avl.c (a_avl_new_child, a_avl_child,
                a_avl_set_child, a_avl_set_parent_factor, a_avl_set_parent, a_avl_factor, a_avl_set_factor, a_avl_rotate,
-               a_avl_rotate2, a_avl_handle_growth, a_avl_insert_adjust with its loop) and a_avl_parent of avl.h regenerated as
-               checked heap programs from the current sources in both node layouts and proved (harness/C01/TieAvl.v +
-               coq/C01/AvlTieLemmas.v) to implement AvlDefs.child / set_child / add_factor / rotate / rotate2 / handle_growth /
-               the retrace of ins on every heap that lays the tree out
+               a_avl_rotate2, a_avl_handle_growth, a_avl_insert_adjust with its loop, a_avl_handle_shrink, a_avl_handle_remove,
+               a_avl_remove with its loops, a_avl_insert with its descent, a_avl_search) and a_avl_parent / a_avl_init of avl.h
+               regenerated as checked heap programs from the current sources in both node layouts and proved
+               (harness/C01/TieAvl.v, TieAvlRemove.v, TieAvlInsert.v + coq/C01/AvlTieLemmas*.v) to implement AvlDefs.child /
+               set_child / add_factor / rotate / rotate2 / handle_growth / ins / handle_shrink / the successor splice / rem /
+               search on every heap that lays the tree out
   oracle     : the property itself evaluated on the C output (BST by in-order walk, recomputed heights vs
                stored factors, |factor|<=1, parent back-links, reachability, element map vs a Python dict,
                return values, "duplicate insert / search / absent remove change nothing"); a sanitizer
@@ -771,27 +773,34 @@ META = {
             "programs (cells left/right/parent/factor + root slot; null/dangling access and a factor leaving -1..1 are "
             "errors; loops on a fuel argument): a_avl_parent, a_avl_new_child, a_avl_child, a_avl_set_child, "
             "a_avl_set_parent_factor, a_avl_set_parent, a_avl_factor, a_avl_set_factor, a_avl_rotate, a_avl_rotate2, "
-            "a_avl_handle_growth, a_avl_insert_adjust; 12 tie theorems x 2 layouts (harness/C01/TieAvl.v): the helpers are "
+            "a_avl_handle_growth, a_avl_insert_adjust, a_avl_handle_shrink, a_avl_handle_remove, a_avl_remove, a_avl_init, "
+            "a_avl_insert, a_avl_search; 18 tie theorems x 2 layouts (harness/C01/TieAvl.v, TieAvlRemove.v, "
+            "TieAvlInsert.v): the helpers are "
             "the field operations of AvlDefs.child/set_child/add_factor for every state and argument; for EVERY heap in which "
             "a tree with distinct node ids is laid out below the root slot or a child field of a parent cell, and both signs, "
-            "the generated a_avl_rotate / a_avl_rotate2 (all three factor cases) / a_avl_handle_growth succeed, leave "
-            "AvlDefs.rotate / rotate2 / handle_growth of that tree laid out below the same slot (same return value) and change "
-            "no cell outside the tree's nodes except the slot; and for EVERY heap that lays out a balanced search tree t with "
-            "the new leaf linked at its search position, the generated a_avl_insert_adjust (first level, then the bottom-up "
-            "loop, fuel >= height t) returns a heap that lays out exactly the tree the model's recursive insertion returns, "
-            "root->node = its root, no other cell touched.",
+            "the generated a_avl_rotate / a_avl_rotate2 (all three factor cases) / a_avl_handle_growth / a_avl_handle_shrink "
+            "(all arms, with the *left flag) succeed, leave AvlDefs.rotate / rotate2 / handle_growth / handle_shrink of that "
+            "tree laid out below the same slot (same return value) and change no cell outside the tree's nodes except the "
+            "slot; a_avl_handle_remove leaves the successor splice laid out; and for EVERY heap that lays out a balanced "
+            "search tree t (fuel linear in height t): the whole public a_avl_insert (descent with the comparator, a_avl_init, "
+            "link, retrace) returns the resident node of an equal key and writes nothing, or returns null and a heap that "
+            "lays out exactly the tree the model's recursive ins returns; a_avl_remove started at the node the model removes "
+            "(unlink or splice, then the bottom-up loop) returns a heap that lays out exactly what rem returns; a_avl_search "
+            "returns AvlDefs.search; root->node = the root, no cell outside the tree (and the new node) touched.",
     "note": "Trusted: Coq kernel; extraction (ExtrOcamlBasic only) + OCaml/C drivers; translator c2avl (its reading of the C: "
             "clang AST -> heap program; the packed word parent_ = parent | (factor + 1) is mapped to the two components by "
-            "recognising its five uses in the AST, each mapping an arithmetic lemma pw_* of C01/AvlTieLemmas.v for 64-bit words "
-            "and 4-aligned pointers; int arithmetic taken exact - the theorems are for sign +-1 and factors in -1..1; fuel is a "
-            "proof device). Correspondence-only (tie 1, checked on the generated histories, not proved): a_avl_insert's "
-            "descent with the comparator callback and the linking of the leaf (a_avl_init, *link = node) - the insert_adjust "
-            "theorem starts from the linked heap -, a_avl_search, and the whole removal side (a_avl_handle_shrink, "
-            "a_avl_handle_remove, a_avl_remove and its retrace loop): their pointer surgery is not translated, and the "
-            "recursive flag-upward model of removal stands for the C's bottom-up loop by the exact per-operation heap "
-            "comparison only. Both node layouts are built and compared with the same model output (the model has no layout): "
-            "packed on every batch, unpacked on corpus + exhaustive small histories + every other remaining batch in quick and "
-            "on every batch in thorough. No axioms.",
+            "recognising its six uses in the AST, each mapping an arithmetic lemma pw_* of C01/AvlTieLemmas*.v for 64-bit "
+            "words and 4-aligned pointers; int arithmetic taken exact - the theorems are for sign +-1 and factors in -1..1; an "
+            "int* out-parameter is a value passed in and out, an a_avl_node** a slot; the comparator callback is ASSUMED to be "
+            "a pure function of its two pointers that orders the new node / key context against the nodes as the model orders "
+            "the keys (hypothesis cmp_ok of the theorems); fuel is a proof device). Every function of the AVL part of avl.c "
+            "(insert, insert_adjust, remove, search and their helpers) is now regenerated and proved; the iterators / tear "
+            "are property C03. Not proved: that the node a_avl_search returns is the one a caller then hands to a_avl_remove "
+            "(the remove theorem takes the node the model's rem names; the correspondence run makes that call sequence). "
+            "Tie 1 (exact per-operation heap comparison on generated histories) stays as the independent check of the "
+            "translator's reading of the C. Both node layouts are built and compared with the same model output (the model "
+            "has no layout): packed on every batch, unpacked on corpus + exhaustive small histories + every other remaining "
+            "batch in quick and on every batch in thorough. No axioms.",
     "technique": "Rocq proof (structural induction, invariants, refinement to an abstract map) + extracted-model vs C exact heap correspondence "
                  "+ translator tie (regenerated pointer code refines the tree model, representation predicate with frame)",
 }
